@@ -9,6 +9,7 @@ import CifModel.Lemmas.NumbLink
 import CifModel.Lemmas.NumbSyntax
 import CifModel.Lemmas.NumbRoundtrip
 import CifModel.Lemmas.NumbAutoinit
+import CifModel.Lemmas.NumbWindow
 /-
   Property C10 — number text and double values convert with correct rounding.
 
@@ -26,21 +27,31 @@ open Model.Numb Spec.Rounding Lemmas.NumbRound Lemmas.NumbToDouble Lemmas.NumbDi
 def C10_valNum (ds : List Nat) (scale : Int) : Nat := natOfDigits ds * 10 ^ (-scale).toNat
 def C10_valDen (scale : Int) : Nat := 10 ^ scale.toNat
 
-/-- FULL: for every digit string (any leading/trailing zeroes, any length up to a line) whose value is non-zero and
-    whose correctly rounded double is normal, `to_double` returns that double. -/
-def C10_to_double_big_full : Prop :=
-  ∀ (ds : List Nat) (scale : Int), (∀ d ∈ ds, d ≤ 9) → natOfDigits ds ≠ 0 →
-    ((ds.dropWhile (· = 0)).reverse.dropWhile (· = 0)).length ≤ 2048 →
-    ∃ p : Nat × Int, IsRne (C10_valNum ds scale) (C10_valDen scale) p ∧
-      (InNormalRange p → toDoubleBig ds scale = .fin false p.1 p.2)
+/-- **C10_to_double_big** (∀ digit strings with digits ≤ 9, any leading and trailing zeroes, at most 2048 significant
+    digits, non-zero value; ∀ scales): if `p` is the IEEE 754 round-to-nearest-even rounding of `digits·10^-scale`
+    (`IsRne`) and `p` is a normal double, the model of `to_double` — zero stripping, truncation, the `±∞`/`0` short cuts,
+    shift estimate from the leading digit by an exact integer log, exact scaling, the "one more left shift" loop,
+    `round_to_int` as written, carry to 2^53, `ldexp` — returns exactly `p`.  (The rounding is unique: `isRne_unique`.) -/
+theorem C10_to_double_big (ds : List Nat) (scale : Int) (hdig : ∀ d ∈ ds, d ≤ 9) (hnz : natOfDigits ds ≠ 0)
+    (hlen : ((ds.dropWhile (· = 0)).reverse.dropWhile (· = 0)).length ≤ 2048) (p : Nat × Int)
+    (hr : IsRne (C10_valNum ds scale) (C10_valDen scale) p) (hn : InNormalRange p) :
+    toDoubleBig ds scale = .fin false p.1 p.2 := by
+  apply Lemmas.NumbWindow.toDoubleBig_rne_full ds scale hdig hnz hlen p _ hn
+  have e1 : B (-scale) = C10_valDen scale := by unfold B C10_valDen; simp
+  have e2 : natOfDigits ds * T (-scale) = C10_valNum ds scale := by unfold T C10_valNum; rfl
+  rw [e1, e2]
+  exact hr
 
-/-- **C10_to_double_big** (partial: digit strings without leading and trailing zeroes, most significant decimal place
-    in the window `(-322, 308]` in which `to_double` runs its bignum algorithm — every normal double lies inside it).
-    For every such string of at most 2048 digits the model of `to_double` — truncation, shift estimate from the leading
-    digit by an exact integer log, exact scaling, the "one more left shift" loop, `round_to_int` as written, carry to
-    2^53, `ldexp` — returns the IEEE 754 round-to-nearest-even double of `digits·10^-scale` whenever that is normal.
-    Missing for FULL: (1) stripping of leading/trailing zeroes is value-preserving (not proved; exercised by the
-    `todbl`/`numb` families), (2) `InNormalRange p → msp ∈ (-322, 308]` (an arithmetic fact about 10^308 vs 2^1024). -/
+/-- zero digit strings give `+0` -/
+theorem C10_to_double_zero (ds : List Nat) (scale : Int) (h : ds.dropWhile (· = 0) = []) :
+    toDoubleBig ds scale = .fin false 0 0 := by
+  unfold toDoubleBig
+  simp [h]
+
+/-- the existential form for normalised strings inside the window — the first version of the theorem, on which
+    `C10_to_double_big` is built (digit strings without leading and trailing zeroes, most significant decimal place in
+    the window `(-322, 308]` in which `to_double` runs its bignum algorithm).  Superseded by `C10_to_double_big`, which
+    needs neither hypothesis. -/
 theorem C10_to_double_big_partial (d0 : Nat) (rest : List Nat) (scale : Int) (hd0 : 1 ≤ d0)
     (hdig : ∀ d ∈ d0 :: rest, d ≤ 9)
     (htrail : (d0 :: rest).reverse.dropWhile (· = 0) = (d0 :: rest).reverse)
@@ -294,6 +305,11 @@ example : rne 9007199254740995 1 = (4503599627370498, 1) := by decide +kernel
 example : (1 : Nat) ≤ 9 ∧ ([9,0,0,7,1,9,9,2,5,4,7,4,0,9,9,5] : List Nat).reverse.dropWhile (· = 0) = [9,0,0,7,1,9,9,2,5,4,7,4,0,9,9,5].reverse := by decide
 example : InNormalRange (4503599627370498, 1) := by decide
 example : BinadeOf 9007199254740995 1 1 ∧ ¬ BinadeOf 9007199254740995 1 0 := by decide +kernel
+-- C10_to_double_big: hypotheses instantiated on a string with leading and trailing zeroes (0090071992547409950 · 10^-1)
+example : natOfDigits [0,0,9,0,0,7,1,9,9,2,5,4,7,4,0,9,9,5,0] ≠ 0 ∧
+    ((([0,0,9,0,0,7,1,9,9,2,5,4,7,4,0,9,9,5,0] : List Nat).dropWhile (· = 0)).reverse.dropWhile (· = 0)).length ≤ 2048 := by decide
+example : toDoubleBig [0,0,9,0,0,7,1,9,9,2,5,4,7,4,0,9,9,5,0] 1 = .fin false 4503599627370498 1 := by decide +kernel
+example : BinadeOf (C10_valNum [0,0,9,0,0,7,1,9,9,2,5,4,7,4,0,9,9,5,0] 1) (C10_valDen 1) 1 := by decide +kernel
 -- round_to_int: a tie with odd / even truncated value, and a non-tie
 example : roundToInt 3 2 = 2 ∧ roundToInt 5 2 = 2 ∧ roundToInt 7 4 = 2 ∧ roundToInt 5 4 = 1 := by decide
 -- syntax: accepted and rejected spellings (tests, not the theorem)
